@@ -23,7 +23,14 @@ RULE = ("(a) deterministic corpus of ill-addressed operations (every write op x 
         "(temp file) and peewee (temp file); non-trivial = a run in which a write op was issued while another bucket held events; (b) histories whose "
         "tail of 2-11 ops (writes to populated buckets interleaved with rejected / raising ops addressed to a missing "
         "bucket or carrying dead ids) is NOT read back op by op - reads commit on sqlite - with one dump at the end, "
-        "SqliteStorage in its default lazy-commit mode")
+        "SqliteStorage in its default lazy-commit mode; (c) scenarios of harness/store_sched.py, judged by the property "
+        "statement alone: an engine call - a write statement, a read, the COMMIT - of an event-level or bucket-level "
+        "operation fails once (raised before the engine / refused by the engine's authorizer) and the caller carries on "
+        "with the same object (peewee, sqlite; seeded sample of the position grid); two storage / Datastore objects on ONE "
+        "file used alternately (peewee, sqlite, memory through two Datastores; deterministic + seeded random); two "
+        "threads on one storage / Datastore object with thread A suspended inside the 1st..3rd engine call of its "
+        "operation (peewee execute_sql; memory: an Event item lookup / copy.deepcopy) while thread B runs whole "
+        "operations (the retried delete + insert elsewhere always, seeded sample of the rest)")
 
 
 def main(argv=None):
@@ -184,6 +191,20 @@ def main(argv=None):
                                              "from unread_from_op on, one dump at the end; SqliteStorage with the default "
                                              "enable_lazy_commit=True"})
                     break
+
+    # --- (c) round 6: the context the streams above never vary (harness/store_sched.py): an engine call that fails
+    #     once and a caller that carries on; two objects on one file used alternately; two threads on one object
+    try:
+        from . import store_sched as ss
+        quick = ck.tier == "quick"
+        big = 10 ** 9
+        scns = (ss.object_scenarios(ck.rng, quick)
+                + ss.pick(ck.rng, ss.thread_scenarios(), 170 if quick else big)
+                + ss.pick(ck.rng, ss.fault_scenarios(), 260 if quick else big, must=lambda s: False))
+        ss.check(ck, "C04", ss.C04_KINDS, scns, "scenario")
+    except Exception as ex:  # noqa: BLE001 -- reported, never hidden
+        ck.disagreement("scenarios", f"the fault / two-object / two-thread scenarios could not run: {type(ex).__name__}: {ex}",
+                        {"kind": "scenario-stream"})
 
     if have_driver:
         allh = [(h[1], r) for h, r in zip(hists, results)] + [(h[1], r) for h, r in zip(qhists, qresults)]
